@@ -2,6 +2,7 @@ package c10
 
 import (
 	"fmt"
+	"strings"
 
 	"verif/harness/eng"
 )
@@ -28,6 +29,12 @@ func raceSubjects(c *eng.Ctx, cc caseCfg, subs []*subject) {
 	for _, s := range subs {
 		s := s
 		if s.Deep {
+			continue
+		}
+		// quick tier: the chained-constructor subjects run concurrently on the fixed race parameter
+		// sets only (every race case of the thorough tier runs them)
+		if c.Tier != "thorough" && strings.HasPrefix(cc.P.Name, "rnd") && (strings.Contains(s.Cfg, "/of-") || strings.Contains(s.Cfg, "/then-")) {
+			c.Count("race_chained_subjects_left_to_thorough", 1)
 			continue
 		}
 		c.Try(sigOf(s.Ctor, "race-run"), func() { runConcurrent(c, s, *cc.Race) })
@@ -176,7 +183,14 @@ func init() {
 		return e.subjects(), nil
 	})
 	generic("ringpack", func(cc caseCfg) ([]*subject, error) {
-		e, err := newRPackEnv(cc.P, cc.P.LogN-2)
+		min, partial := cc.P.LogN-2, false
+		switch cc.Var {
+		case "min1":
+			min = cc.P.LogN - 1
+		case "partial":
+			min, partial = cc.P.LogN-1, true
+		}
+		e, err := newRPackEnv(cc.P, min, partial)
 		if err != nil {
 			return nil, err
 		}
@@ -218,6 +232,15 @@ func init() {
 			}
 			raceSubjects(c, cc, e.subjects())
 		}})
+	regGroup(&groupDef{name: "rlwe-inplace", run: runInplace})
+	generic("circuits", circSubjects)
+	generic("blindrot", func(cc caseCfg) ([]*subject, error) {
+		e, err := newBREnv(cc.P, cc.Out)
+		if err != nil {
+			return nil, err
+		}
+		return e.subjects(), nil
+	})
 	generic("mpckks", func(cc caseCfg) ([]*subject, error) {
 		e, err := newMPCKKSEnv(cc.P, cc.Out, parties(cc))
 		if err != nil {
@@ -406,6 +429,7 @@ func enumerate(r *eng.Rand, thorough bool, add func(group string, ps pset, varia
 		addRace("btp", pset{Name: "raceBtp", LogN: 7}, "btpLogN8-full1", nil, 2, 4, 1)
 	}
 	enumerateRandom(r, thorough, add, addRace)
+	enumerateAudit(r.Sub("audit"), thorough, add, addRace)
 	// ---- concurrent variants
 	if ps, ok := mk("raceRgsw", 6, "", []int{50, 40}, []int{50, 50}); ok {
 		addRace("rgsw", ps, "", nil, 4, 4, 2)
